@@ -13,7 +13,8 @@ from .c13 import outcome
 SEPS = [' ', '\n', '\t', '\r\n', '  ', '\n\n', ' \t ',
         ' -- a comment --\n', ' -- a comment\n', ' --x-- ', ' -- "quoted" \' /* not block -- ',
         ' /* block */ ', ' /* multi\nline\nblock */ ', ' /* outer /* nested */ still */ ',
-        ' /* has -- dashes and "quotes" */ ', '\n-- full line comment\n', ' /**/ ', '\n/*\n*/\n', ' --\n']
+        ' /* has -- dashes and "quotes" */ ', ' /* 5" wide */ ', " /* it's one \" and ' */ ",
+        ' -- one " quote --\n', ' -- it\'s\n', '\n-- full line comment\n', ' /**/ ', '\n/*\n*/\n', ' --\n']
 MULTI = [('OCTET', 'STRING'), ('BIT', 'STRING'), ('OBJECT', 'IDENTIFIER'), ('WITH', 'COMPONENTS'),
          ('WITH', 'COMPONENT'), ('COMPONENTS', 'OF'), ('EXTENSIBILITY', 'IMPLIED'), ('DEFINED', 'BY'),
          ('ANY', 'DEFINED'), ('WITH', 'SYNTAX'), ('CONSTRAINED', 'BY')]
